@@ -137,6 +137,21 @@ Fixpoint fproj (fuel : nat) (w : world) (ff : option N) (i : id) {struct fuel} :
     end
   end.
 
+(* the elements of a tree in document order, with name and attributes; the same of a heap element *)
+Fixpoint epre (t : Parser.etree) : list (N * list (N * Parser.cdata)) :=
+  match t with
+  | Parser.ENode name _ attrs content _ =>
+    (name, attrs) ::
+    (fix go (l : list (Parser.etree + Parser.cdata)) : list (N * list (N * Parser.cdata)) :=
+       match l with
+       | [] => []
+       | inl s :: r => epre s ++ go r
+       | inr _ :: r => go r
+       end) content
+  end.
+Definition label_at (w : world) (i : id) : N * list (N * Parser.cdata) :=
+  match w_nodes w i with Some n => (n_name n, pc_attrs (n_attrs n)) | None => (0, []) end.
+
 (* an item of a content list survives the filter *)
 Definition item_kept (w : world) (ff : option N) (it : citem) : Prop :=
   match it with
